@@ -108,6 +108,9 @@ def build(src):
     if bnd:
         fa['FTYPE'] = 2
     f = ioapi_base.from_arrays(fileattrs=fa, **kw)
+    if src.get('notflag'):
+        # a file whose time axis lives in the header only (assembled by hand, before updatetflag() was ever called)
+        del f.variables['TFLAG']
     if kind == 'arrays_extra':
         v = f.createVariable('LAT2D', 'f', ('ROW', 'COL'))
         v[:] = 1
